@@ -2222,6 +2222,11 @@ class TextQueryBackend(Backend):
                 + self.compare_operators[cond_value.op]
                 + str(cond.value.number)
             )
+        elif isinstance(cond_value.number, SigmaTimestampPart):
+            # comparing the field itself instead of the part of it would be another query
+            raise NotImplementedError(
+                "Timestamp part comparison expressions are not supported by the backend."
+            )
         else:
             return self.compare_op_expression.format(
                 field=self.escape_and_quote_field(cond.field),
